@@ -28,6 +28,10 @@ func genC13(g gen.G) C13Case {
 	if g.Chance(60) {
 		o.Edits = 0
 	}
+	if g.Chance(40) {
+		// well-typed, parse-clean values: the exact value-token model applies to most of them
+		o.Cfg.Typed, o.Cfg.HalfTyped, o.Edits = true, 0, 0
+	}
 	return C13Case{World: g.World(o)}
 }
 
@@ -183,6 +187,52 @@ func checkC13(c C13Case) Result {
 			for _, t := range toks {
 				have[toTok(t).String()] = true
 			}
+			// value tokens: literals, keywords, type names, object / map keys and known function
+			// names are determined for values whose shape fits their constraint
+			if fi.posModel && parseClean(hf) {
+				for _, v := range tm.Values {
+					if inRegions(tm.Ignore, v.Start, v.End) || (len(fi.tainted) > 0 && fi.inTaint(v.Start)) {
+						continue
+					}
+					vt, ok := refmodel.ModelValueTokens(v.Cons, v.Expr, p.Funcs)
+					if !ok {
+						r.Class("value:undetermined")
+						continue
+					}
+					r.Class("value:determined")
+					want := map[string]bool{}
+					for _, t := range vt.Required {
+						want[t.String()] = true
+					}
+					seen := map[string]bool{}
+					for _, t := range toks {
+						tk := toTok(t)
+						if tk.Start < v.Start || tk.End > v.End {
+							continue
+						}
+						if tk.Type == "hcl-objectKey" && inRegions(vt.NoKey, tk.Start, tk.End) {
+							r.Fail("value-token-surplus:objectKey-on-non-literal-key", "token %s marks an object key that is no literal name (it cannot be an attribute of the object)\n value: %q\n file:\n%s", tk, f.Text[v.Start:v.End], clip(f.Text, 800))
+							continue
+						}
+						if inRegions(vt.Ignore, tk.Start, tk.End) {
+							continue
+						}
+						if want[tk.String()] {
+							seen[tk.String()] = true
+							continue
+						}
+						if inRegions(vt.Optional, tk.Start, tk.End) && (tk.Type == "hcl-referenceStep" || tk.Type == "hcl-number" || tk.Type == "hcl-mapKey") {
+							continue
+						}
+						r.Fail("value-token-surplus:"+tk.Type, "token %s inside the value of a schema-known attribute (constraint %s) is none of the determined tokens %v\n value: %q\n file:\n%s", tk, v.Cons.K, vt.Required, f.Text[v.Start:v.End], clip(f.Text, 800))
+					}
+					for _, t := range vt.Required {
+						if !seen[t.String()] {
+							r.Fail("value-token-missing:"+t.Type, "expected token %s inside the value of a schema-known attribute (constraint %s); tokens inside: %v\n value: %q\n file:\n%s", t, v.Cons.K, tokensWithin(toks, v.Start, v.End), f.Text[v.Start:v.End], clip(f.Text, 800))
+						}
+					}
+				}
+			}
 			for _, lt := range tm.Literals {
 				if inRegions(tm.Ignore, lt.Start, lt.End) || (len(fi.tainted) > 0 && fi.inTaint(lt.Start)) {
 					continue
@@ -196,6 +246,13 @@ func checkC13(c C13Case) Result {
 	}
 	r.NonTrivial = valueTokens > 0
 	return r
+}
+
+// parseClean reports whether the file parses without errors (exact value tokens are only
+// judged there: error recovery attaches neighbouring text to expressions).
+func parseClean(hf *hcl.File) bool {
+	_, diags := hclsyntax.ParseConfig(hf.Bytes, "x.tf", hcl.InitialPos)
+	return !diags.HasErrors()
 }
 
 func tokensWithin(toks []lang.SemanticToken, s, e int) []string {
